@@ -11,7 +11,6 @@ CONSTANTS
   FixSilentExit = FALSE
   FixResumeDone = FALSE
   FixRecentCp = FALSE
-  FixRetryCount = FALSE
   MaxSteps = 1000
   SimDepth = 1000
 INIT MCInit
